@@ -931,10 +931,28 @@ Example scatter_none_example :
   = [0; 8; 0; 8; 0; 8].
 Proof. reflexivity. Qed.
 
+(* the two accuracies fall back to their defaults independently *)
+Lemma acc_or_default_spec user dflt :
+  acc_or_default user dflt
+  = match user with
+    | Some k => if k =? 0 then dflt else k
+    | None => dflt
+    end.
+Proof. reflexivity. Qed.
+
+Lemma mesh_fake_axes_independent xa ya dx dy xc yc gx gy :
+  mesh_fake xa ya dx dy xc yc = Some (gx, gy) ->
+  forall ya' dy' gx' gy', mesh_fake xa ya' dx dy' xc yc = Some (gx', gy') ->
+    acc_or_default ya dy = acc_or_default ya' dy' -> gx = gx' /\ gy = gy'.
+Proof.
+  unfold mesh_fake. destruct xc as [|c xc]; [discriminate|].
+  intros [= <- <-] ya' dy' gx' gy' [= <- <-] ->. split; reflexivity.
+Qed.
+
 Example contour_example :
   contour_flat (true, [true; true; false; true],
                 [(0, 0); (0, 16); (0, 999); (1, 0)],
-                [(0, 8); (0, 24); (2, 0); (0, 8)], 3, 2, false)
+                [(0, 8); (0, 24); (2, 0); (0, 8)], Some 3, Some 0, 2, false)
   = [0; 6;  0; 0; 0; 0; 0; 8; 0; 8; 0; 16; 0; 16;
      0; 8; 0; 24; 0; 8; 0; 24; 0; 8; 0; 24;
      0; 640; 0; 816; 0; 696; 0; 872; 0; 752; 0; 928].
